@@ -224,7 +224,7 @@ def run_unit(u):
                 if tr.steps:
                     check_transform(c, tr, res, {"schema": c.id, "doc": d, "op": op}, size)
                     n += 1
-                    if status == "ok" and depth + 1 < u["depth"]:
+                    if status == "ok" and depth + 1 < u["depth"] and size <= u["size"] - 3:
                         nd = tr.doc.to_json()
                         if common.doc_size(model, nd) <= u["size"] + 2 and jkey(nd) not in seen:
                             frontier.append((nd, depth + 1))
